@@ -249,6 +249,9 @@ class Fault:
             return False
         if self.spec["when"] == "kth":
             return k == self.spec["k"]
+        if self.spec["when"] == "window":
+            # a long uninterrupted streak of failing calls, after which the callback works again
+            return self.spec["k"] <= k < self.spec["k"] + self.spec["len"]
         return self.region.hit(state, flat)
 
     def act(self, false_value):
